@@ -21,6 +21,7 @@ import json
 import os
 import posixpath
 import shutil
+import stat
 import sys
 import tempfile
 
@@ -112,9 +113,21 @@ def build_tree() -> dict:
         os.symlink(target, os.path.join(R, rel))
     os.link(os.path.join(R, "outside/hcanary"), os.path.join(R, "base/hard"))
     os.link(os.path.join(R, "base/g"), os.path.join(R, "base/d/hard_in"))
+    # non-regular objects inside the base: a FIFO (kept open read-write by the harness so that an open() of it can
+    # never block) holding 8 bytes, and, when permitted, a character device (a /dev/zero clone)
+    special_fds = []
+    os.mkfifo(os.path.join(R, "base/fifo"))
+    fd = os.open(os.path.join(R, "base/fifo"), os.O_RDWR | os.O_NONBLOCK)
+    os.write(fd, b"FIFODATA")
+    special_fds.append(fd)
+    try:
+        os.mknod(os.path.join(R, "base/zero"), 0o666 | stat.S_IFCHR, os.makedev(1, 5))
+    except OSError:
+        pass
     scratch = os.path.join(top, "scratch")
     os.mkdir(scratch)
-    return {"top": top, "R": R, "scratch": scratch, "canaries": sorted(v.decode() for k, v in files.items() if v.startswith(b"CANARY"))}
+    return {"top": top, "R": R, "scratch": scratch, "special_fds": special_fds,
+            "canaries": sorted(v.decode() for k, v in files.items() if v.startswith(b"CANARY")) + ["FIFODATA", "\0" * NBYTES]}
 
 
 def describe_tree(R: str, idmap: dict | None = None) -> dict:
@@ -142,6 +155,14 @@ def describe_tree(R: str, idmap: dict | None = None) -> dict:
             entries.append([p, "d", st.st_nlink])
             for n in sorted(os.listdir(p), reverse=True):
                 stack.append(os.path.join(p, n))
+        elif not _stat.S_ISREG(st.st_mode):
+            # FIFO, socket, device node: never read by the harness
+            key = (st.st_dev, st.st_ino)
+            if key not in inodes:
+                iid = len(inodes) + 1 if idmap is None else idmap.setdefault(key, len(idmap) + 1)
+                inodes[key] = {"id": iid, "nlink": st.st_nlink, "data": "", "locs": [], "kind": "o"}
+            inodes[key]["locs"].append(p)
+            entries.append([p, "o", inodes[key]["id"]])
         else:
             key = (st.st_dev, st.st_ino)
             if key not in inodes:
@@ -243,7 +264,7 @@ def _classify(e: BaseException) -> str:
             return "c1"
         if "resolves via symlink" in m:
             return "c2"
-        if "multiple hard links" in m:
+        if "multiple hard links" in m or "is not a regular file" in m:
             return "c3"
     if isinstance(e, OSError):
         return "open"
@@ -253,7 +274,7 @@ def _classify(e: BaseException) -> str:
 def make_tensor(base: str, loc: str, offset: int = 0, length: int = NBYTES):
     import onnx_ir as ir
 
-    return ir.ExternalTensor(loc, offset, length, ir.DataType.UINT8, shape=ir.Shape([length]), name="t", base_dir=base)
+    return ir.ExternalTensor(loc, offset, length, ir.DataType.UINT8, shape=ir.Shape([NBYTES if length is None else length]), name="t", base_dir=base)
 
 
 def read_via(t, ep: str, scratch: str) -> bytes:
@@ -301,6 +322,11 @@ def real_read(t, ep: str, scratch: str, R: str, release: bool = True) -> dict:
                 t.release()
             except Exception:
                 pass
+    try:
+        own = os.path.join(os.fspath(t.base_dir), os.fspath(t.location))
+    except Exception:  # noqa: BLE001
+        own = None
+    obs["own_opens"] = sum(1 for p in _AUDIT["events"] if p == own)
     cwd = os.getcwd()
     opened = []
     for p in _AUDIT["events"]:
@@ -333,7 +359,7 @@ def oracle(part, tree: dict, desc: dict, case: dict, obs: dict, true_base: str |
 
     def inside(key) -> bool:
         info = inos.get(key)
-        if info is None or true_base is None:
+        if info is None or true_base is None or info.get("kind") == "o":
             return False
         if info["nlink"] != 1:
             return False
@@ -341,9 +367,9 @@ def oracle(part, tree: dict, desc: dict, case: dict, obs: dict, true_base: str |
         return all((l + "/").startswith(tb) for l in info["locs"])
 
     in_tree = [p for p in obs["opened"] if (posixpath.normpath(p) + "/").startswith(tree["top"] + "/") or true_location(p, R) in inos]
-    off, ln = case.get("offset", 0), case.get("length", NBYTES)
+    off, ln = case.get("offset", 0) or 0, case.get("length", NBYTES)
     if obs["r"] == "ok":
-        ok_inside = [info for key, info in inos.items() if inside(key) and info["data"][off:off + ln] == obs["bytes"]]
+        ok_inside = [info for key, info in inos.items() if inside(key) and info["data"][off:off + (ln if ln is not None else NBYTES)] == obs["bytes"]]
         if not ok_inside:
             if any(c[off:off + ln] == obs["bytes"] for c in tree["canaries"]):
                 part.fail(f"canary-read:{sig_case}", "a read returned the bytes of a file outside the base directory", {**case, "obs": obs})
@@ -363,7 +389,7 @@ def oracle(part, tree: dict, desc: dict, case: dict, obs: dict, true_base: str |
 # --------------------------------------------------------------------------- generators
 
 TOKENS = [".", "..", "d", "f", "link_in", "link_out", ""]
-EXTRA_TOKENS = ["dlink_out", "dlink_in", "hard", "up", "chain", "loop_a", "dangling", "link_abs_out", "link_abs_in",
+EXTRA_TOKENS = ["fifo", "zero", "dlink_out", "dlink_in", "hard", "up", "chain", "loop_a", "dangling", "link_abs_out", "link_abs_in",
                 "hard_in", "link_sib", "g", "e", "nothing", "basex", "outside", "base", "canary", "back", "link_in2",
                 "chain_in", "dangling_out", "blink"]
 
@@ -464,7 +490,7 @@ def _work(job: dict) -> dict:
         obs = real_read(t, ep, tree["scratch"], R)
         oracle(part, tree, desc, case, obs, sp["true"])
         obs_list.append((case, obs))
-        queries.append([sp["base"], loc, off, ln, ep])
+        queries.append([sp["base"], loc, off or 0, NBYTES if ln is None else ln, ep])
     outs = lean_batch([{"m": "path.reads", "fs": fs_json(desc), "cwd": sp["cwd"], "kfuel": KFUEL, "fuel": PFUEL, "queries": queries}])[0]
     if "r" not in outs:
         part.disagree("model error", {"sp": sp}, outs, None)
@@ -474,12 +500,29 @@ def _work(job: dict) -> dict:
         part.case([case["cwd"].replace(R, "$R"), case["base"].replace(R, "$R"), case["loc"].replace(R, "$R"), case["ep"], case["offset"], case["length"]],
                   nontrivial=True, sample=dict(case), base=case["base_kind"], ep=case["ep"],
                   outcome=(obs["r"] if obs["r"] == "ok" else "raised-" + layer), ncomp=min(len(case["loc"].split("/")), 6))
-        compare(part, case, obs, out, id_of, R)
+        compare(part, case, obs, out, desc["inodes"], R)
     return part
 
 
 def compare(part, case: dict, obs: dict, out: dict, id_of: dict, R: str) -> None:
-    """Model verdict vs the real read: accept/reject, bytes, which layer rejects, which file is opened."""
+    """Model verdict vs the real read: accept/reject, bytes, which layer rejects, whether the tensor's path was
+    opened by this call and which inode that reached."""
+    if "own_opens" in obs:
+        m_open = out.get("opened")
+        if (m_open is None) != (obs["own_opens"] == 0):
+            part.disagree("open / no open of the tensor's path differs", case, out, obs)
+        elif obs["own_opens"] > 1:
+            part.disagree("the tensor's path was opened more than once in one call", case, out, obs)
+        elif m_open is not None and id_of:
+            try:
+                own_abs = os.path.join(case["cwd"], case["base"], case["loc"])
+                st_ = os.stat(own_abs)
+                info = id_of.get((st_.st_dev, st_.st_ino))
+                real_id = info["id"] if info is not None else "fail"
+            except (OSError, ValueError):
+                real_id = "fail"
+            if real_id != m_open and not (real_id != "fail" and m_open == "fail" and os.path.isdir(own_abs)):
+                part.disagree("opened inode differs", case, out, {**obs, "real_opened": real_id})
     if out["r"] != obs["r"]:
         part.disagree("accept/reject differs", case, out, obs)
         return
@@ -515,7 +558,7 @@ def _realpath_work(job: dict) -> dict:
             return "l" + os.readlink(p)
         if _stat.S_ISDIR(st.st_mode):
             return "d"
-        return f"f{key_of.get((st.st_dev, st.st_ino), '?')}"
+        return ("f" if _stat.S_ISREG(st.st_mode) else "o") + f"{key_of.get((st.st_dev, st.st_ino), '?')}"
 
     fsj = fs_json(desc)
     outs = lean_batch([
@@ -542,6 +585,33 @@ def _realpath_work(job: dict) -> dict:
 # --------------------------------------------------------------------------- string functions
 
 
+def _remove_stale_trees(max_age_s: int = 2 * 3600) -> None:
+    """Trees of runs that were killed (a finished run removes its own)."""
+    import time
+
+    tmp = tempfile.gettempdir()
+    try:
+        names = os.listdir(tmp)
+    except OSError:
+        return
+    for n in names:
+        if n.startswith("irverif-c10-"):
+            p = os.path.join(tmp, n)
+            try:
+                if time.time() - os.lstat(p).st_mtime > max_age_s:
+                    shutil.rmtree(p, ignore_errors=True) if os.path.isdir(p) and not os.path.islink(p) else os.remove(p)
+            except OSError:
+                pass
+
+
+def check_links(part, desc: dict, what: str) -> None:
+    """Link counts of the described tree are sound (hypothesis LinkCountSound of C10_single_name): an inode has
+    at most st_nlink names in the tree."""
+    for info in desc["inodes"].values():
+        if len(info["locs"]) > info["nlink"]:
+            part.disagree("described tree violates link-count soundness", {"tree": what, "locs": info["locs"]}, info["nlink"], len(info["locs"]))
+
+
 def string_functions(ctx: Ctx) -> None:
     alpha = ["/", ".", "a", "b"]
     n = ctx.pick(6, 7)
@@ -562,7 +632,7 @@ def string_functions(ctx: Ctx) -> None:
         reqs.append({"m": "path.join", "a": a, "b": b}); exp.append(posixpath.join(a, b)); cases.append(("join", [a, b]))
     old = os.getcwd()
     try:
-        for cwd in ("/", "/tmp"):
+        for cwd in ("/", os.path.realpath(tempfile.gettempdir())):
             os.chdir(cwd)
             for a in short + strs[-500:]:
                 reqs.append({"m": "path.abspath", "cwd": cwd, "p": a}); exp.append(posixpath.abspath(a)); cases.append(("abspath", [cwd, a]))
@@ -597,10 +667,14 @@ def load_cases(ctx: Ctx, tree: dict, desc: dict) -> None:
     model = ir.Model(graph, ir_version=10)
     mpath = os.path.join(R, "base", "m.onnx")
     ir.save(model, mpath)
-    desc_m = describe_tree(R)  # the tree including the model file
+    mpath_up = os.path.join(R, "m.onnx")  # the same model one level up: opened through "<symlinked dir>/.."
+    ir.save(model, mpath_up)
+    desc_m = describe_tree(R)  # the tree including the model files
     rname = os.path.basename(R)
     b = R + "/base"
     spellings = [
+        {"cwd": b, "path": "dlink_out/../m.onnx", "true": R, "kind": "symlink-dotdot"},
+        {"cwd": R, "path": "base/dlink_in/up/../m.onnx", "true": R, "kind": "symlink-up-dotdot"},
         {"cwd": R, "path": mpath, "true": b, "kind": "abs"},
         {"cwd": R, "path": "base/m.onnx", "true": b, "kind": "rel"},
         {"cwd": R, "path": "./base/m.onnx", "true": b, "kind": "rel-dot"},
@@ -616,7 +690,7 @@ def load_cases(ctx: Ctx, tree: dict, desc: dict) -> None:
     try:
         for sp in spellings:
             os.chdir(sp["cwd"])
-            out = lean_batch([{"m": "path.loadbase", "p": sp["path"]}, {"m": "path.loadbase_unfixed", "p": sp["path"]}])
+            out = lean_batch([{"m": "path.loadbase", "cwd": sp["cwd"], "p": sp["path"]}, {"m": "path.loadbase_unfixed", "p": sp["path"]}])
             m = ir.load(sp["path"])
             tensors = [v.const_value for v in m.graph.initializers.values()]
             got_base = os.fspath(tensors[0].base_dir)
@@ -624,30 +698,46 @@ def load_cases(ctx: Ctx, tree: dict, desc: dict) -> None:
             if got_base == "":
                 ctx.fail(f"load-empty-base:{sp['kind']}", "ir.load assigned an empty base directory: containment checks are disabled",
                          {"cwd": sp["cwd"], "path": sp["path"], "base_dir": got_base})
+            try:
+                same = os.path.samefile(got_base, sp["true"])
+            except OSError:
+                same = False
+            if got_base != "" and not same:
+                ctx.fail(f"load-wrong-base:{sp['kind']}", "the base directory assigned by ir.load is not the directory the model file was opened from",
+                         {"cwd": sp["cwd"], "path": sp["path"], "base_dir": got_base, "model_dir": sp["true"]})
             if got_base != out[0].get("r"):
                 if got_base == out[1].get("r") and got_base == "":
                     ctx.count("load-base-matches-unfixed-model(D23)")
                 else:
                     ctx.disagree("load base_dir derivation differs from model", {"cwd": sp["cwd"], "path": sp["path"]}, out, got_base)
-            queries, obs_l = [], []
-            for t in tensors:
-                ep = ENTRY_POINTS[(len(obs_l) + spellings.index(sp)) % len(ENTRY_POINTS)]
-                case = {"cwd": sp["cwd"], "base": got_base, "loc": os.fspath(t.location), "ep": ep, "via": "load-" + sp["kind"], "model_path": sp["path"]}
+            # reads are made from the load-time directory and, after a chdir, from two other directories
+            read_cwds = [sp["cwd"], R + "/outside", R]
+            groups: dict = {c: ([], []) for c in read_cwds}
+            for k, t in enumerate(tensors):
+                ep = ENTRY_POINTS[(k + spellings.index(sp)) % len(ENTRY_POINTS)]
+                rc = read_cwds[(k + spellings.index(sp)) % len(read_cwds)]
+                os.chdir(rc)
+                case = {"cwd": rc, "load_cwd": sp["cwd"], "base": got_base, "loc": os.fspath(t.location), "ep": ep, "via": "load-" + sp["kind"], "model_path": sp["path"]}
                 obs = real_read(t, ep, tree["scratch"], R)
                 oracle(ctx, tree, desc, case, obs, sp["true"])
-                ctx.case(["load-read", sp["kind"], case["loc"].replace(R, "$R"), ep], load_read=sp["kind"], outcome=(obs["r"] if obs["r"] == "ok" else "raised-" + obs.get("layer", "?")))
-                obs_l.append((case, obs))
+                ctx.case(["load-read", sp["kind"], case["loc"].replace(R, "$R"), ep, rc.replace(R, "$R")], load_read=sp["kind"], chdir=("same" if rc == sp["cwd"] else "changed"),
+                         outcome=(obs["r"] if obs["r"] == "ok" else "raised-" + obs.get("layer", "?")))
                 # the model reads with the base directory the MODEL derives from the model path
-                queries.append([out[0].get("r", ""), case["loc"], 0, NBYTES, ep])
-            mo = lean_batch([{"m": "path.reads", "fs": fs_json(desc_m), "cwd": sp["cwd"], "kfuel": KFUEL, "fuel": PFUEL, "queries": queries}])[0]
-            if "r" not in mo:
-                ctx.disagree("model error", {"load": sp}, mo, None)
-            else:
-                for (case, obs), o in zip(obs_l, mo["r"]):
-                    compare(ctx, case, obs, o, {}, R)
+                groups[rc][0].append([out[0].get("r", ""), case["loc"], 0, NBYTES, ep])
+                groups[rc][1].append((case, obs))
+            for rc, (queries, obs_l) in groups.items():
+                if not queries:
+                    continue
+                mo = lean_batch([{"m": "path.reads", "fs": fs_json(desc_m), "cwd": rc, "kfuel": KFUEL, "fuel": PFUEL, "queries": queries}])[0]
+                if "r" not in mo:
+                    ctx.disagree("model error", {"load": sp}, mo, None)
+                else:
+                    for (case, obs), o in zip(obs_l, mo["r"]):
+                        compare(ctx, case, obs, o, desc_m["inodes"], R)
     finally:
         os.chdir(old)
         os.remove(mpath)
+        os.remove(mpath_up)
 
 
 # --------------------------------------------------------------------------- load(): nested models
@@ -709,15 +799,28 @@ def build_nested_model(R: str):
         return g, {"i": [v.name for v in iv], "n": ndesc}
 
     g, d = graph("main", 0, 3)
-    return ir.Model(g, ir_version=10), d, names
+    # model-local functions: no initializers at the top of a function body (FunctionProto has none), but tensor
+    # attributes of its nodes and initializers / attributes of graphs nested in it
+    funcs, fdescs = [], []
+    for fi, maxdepth in enumerate((1, 2)):
+        pos = f"func{fi}"
+        nodes, ndesc = tensor_nodes(pos)
+        then_g, then_d = graph(pos + ".then", 1, maxdepth)
+        nodes.append(ir.Node("", "If", [], [ir.AttrGraph("then_branch", then_g)], num_outputs=1, name=f"{pos}.if"))
+        ndesc.append({"t": [], "g": [then_d]})
+        fg = ir.Graph([], [], nodes=nodes, name=pos, opset_imports={"": 20, "test": 1})
+        funcs.append(ir.Function("test", f"F{fi}", graph=fg, attributes=[]))
+        fdescs.append({"i": [], "n": ndesc})
+    return ir.Model(g, ir_version=10, functions=funcs), {"main": d, "funcs": fdescs}, names
 
 
-def every_external_tensor(graph) -> dict:
-    """Independent of onnx_ir's own walkers: every ExternalTensor reachable anywhere below `graph`."""
+def every_external_tensor(model) -> dict:
+    """Independent of onnx_ir's own walkers: every ExternalTensor reachable anywhere in the model (main graph,
+    bodies of model-local functions, and every graph nested in them)."""
     import onnx_ir as ir
 
     found: dict = {}
-    stack = [graph]
+    stack = [model.graph] + [f.graph for f in model.functions.values()]
     while stack:
         g = stack.pop()
         for v in g.initializers.values():
@@ -769,43 +872,54 @@ def nested_load_cases(ctx: Ctx, tree: dict, desc: dict) -> None:
     try:
         for si, sp in enumerate(spellings):
             os.chdir(sp["cwd"])
-            lb = lean_batch([{"m": "path.loadbase", "p": sp["path"]}])[0].get("r")
+            lb = lean_batch([{"m": "path.loadbase", "cwd": sp["cwd"], "p": sp["path"]}])[0].get("r")
             m = ir.load(sp["path"])
-            tensors = every_external_tensor(m.graph)
+            tensors = every_external_tensor(m)
             if set(tensors) != set(names):
                 ctx.disagree("nested model: tensors found after load differ from those saved", {"load": sp}, sorted(set(names) ^ set(tensors))[:5], None)
             if si == 0:
                 # the real walker vs the model walker vs full reachability
-                real_reached = {t.name for t in ir.external_data._all_tensors(m.graph, include_attributes=True) if isinstance(t, ir.ExternalTensor)}
+                real_reached = {t.name for g_ in [m.graph] + [f.graph for f in m.functions.values()]
+                                for t in ir.external_data._all_tensors(g_, include_attributes=True) if isinstance(t, ir.ExternalTensor)}
                 if real_reached != model_reached:
                     ctx.disagree("_all_tensors reaches other tensors than the model walker", {"load": sp}, sorted(model_reached ^ real_reached)[:8], None)
                 if model_all != set(names):
                     ctx.disagree("model reach differs from the tensors of the model", {"load": sp}, sorted(model_all ^ set(names))[:8], None)
-            queries, obs_l = [], []
+            read_cwds = [sp["cwd"], R + "/outside", R + "/basex"]
+            groups: dict = {c: ([], []) for c in read_cwds}
             for k, name in enumerate(sorted(tensors)):
                 t = tensors[name]
                 pos = name.split("#")[0]
-                poskind = ("init" if ".init" in pos else "tensors-attr" if pos.endswith(".tsattr") else "tensor-attr") + f"-depth{pos.count('.then') + pos.count('.else') + pos.count('.gs') + pos.count('.loop')}"
+                poskind = (("func-" if pos.startswith("func") else "") + ("init" if ".init" in pos else "tensors-attr" if pos.endswith(".tsattr") else "tensor-attr")
+                           + f"-depth{pos.count('.then') + pos.count('.else') + pos.count('.gs') + pos.count('.loop')}")
                 got_base = os.fspath(t.base_dir)
                 ep = ENTRY_POINTS[(k + si) % len(ENTRY_POINTS)]
-                case = {"cwd": sp["cwd"], "base": got_base, "loc": os.fspath(t.location), "ep": ep, "via": "nested-load-" + sp["kind"],
+                rc = read_cwds[(k // len(NEST_LOCS) + si) % len(read_cwds)]
+                os.chdir(rc)
+                case = {"cwd": rc, "load_cwd": sp["cwd"], "base": got_base, "loc": os.fspath(t.location), "ep": ep, "via": "nested-load-" + sp["kind"],
                         "model_path": sp["path"], "position": pos}
                 if got_base == "":
                     ctx.fail(f"load-empty-base:{poskind}", "after ir.load an external tensor of the model still has an empty base directory: "
                              "its containment checks are disabled and its location resolves against the cwd", case)
                 elif got_base != lb:
                     ctx.disagree("nested load: base_dir differs from the model's derivation", case, lb, got_base)
+                if got_base != "" and not os.path.samefile(got_base, b):
+                    ctx.fail(f"load-wrong-base:nested-{sp['kind']}", "the base directory assigned by ir.load is not the directory the model file was opened from", case)
                 obs = real_read(t, ep, tree["scratch"], R)
                 oracle(ctx, tree, desc, case, obs, b)
-                ctx.case(["nested-load", sp["kind"], name, ep], nested_position=poskind, nested_outcome=(obs["r"] if obs["r"] == "ok" else "raised-" + obs.get("layer", "?")))
-                queries.append([lb or "", case["loc"], 0, NBYTES, ep])
-                obs_l.append((case, obs))
-            mo = lean_batch([{"m": "path.reads", "fs": fs_json(desc_m), "cwd": sp["cwd"], "kfuel": KFUEL, "fuel": PFUEL, "queries": queries}])[0]
-            if "r" not in mo:
-                ctx.disagree("model error", {"load": sp}, mo, None)
-            else:
-                for (case, obs), o in zip(obs_l, mo["r"]):
-                    compare(ctx, case, obs, o, {}, R)
+                ctx.case(["nested-load", sp["kind"], name, ep], nested_position=poskind, nested_chdir=("same" if rc == sp["cwd"] else "changed"),
+                         nested_outcome=(obs["r"] if obs["r"] == "ok" else "raised-" + obs.get("layer", "?")))
+                groups[rc][0].append([lb or "", case["loc"], 0, NBYTES, ep])
+                groups[rc][1].append((case, obs))
+            for rc, (queries, obs_l) in groups.items():
+                if not queries:
+                    continue
+                mo = lean_batch([{"m": "path.reads", "fs": fs_json(desc_m), "cwd": rc, "kfuel": KFUEL, "fuel": PFUEL, "queries": queries}])[0]
+                if "r" not in mo:
+                    ctx.disagree("model error", {"load": sp}, mo, None)
+                else:
+                    for (case, obs), o in zip(obs_l, mo["r"]):
+                        compare(ctx, case, obs, o, desc_m["inodes"], R)
     finally:
         os.chdir(old)
         os.remove(mpath)
@@ -814,52 +928,10 @@ def nested_load_cases(ctx: Ctx, tree: dict, desc: dict) -> None:
 # --------------------------------------------------------------------------- run
 
 
-SLICES = [(0, NBYTES), (2, 4), (0, 3), (4, NBYTES)]  # the last one is longer than the file
-
-
-def _snapshot_driver() -> str | None:
-    """Use a private copy of the model driver for the whole run: a concurrent `lake build` (another
-    check's proof tier) relinks the shared binary and it is absent for a moment."""
-    import time
-
-    import harness.common as common
-
-    for _ in range(120):
-        try:
-            fd, tmp = tempfile.mkstemp(prefix="irverif-c10-driver-")
-            os.close(fd)
-            shutil.copy2(common.DRIVER, tmp)
-            os.chmod(tmp, 0o755)
-            if os.path.getsize(tmp) > 0:
-                common.DRIVER = tmp
-                return tmp
-        except OSError:
-            pass
-        try:
-            os.remove(tmp)
-        except OSError:
-            pass
-        time.sleep(0.5)
-    return None
+SLICES = [(0, NBYTES), (2, 4), (0, 3), (4, NBYTES), (None, None), (None, NBYTES), (3, None)]  # (4, 8) and (3, None) exceed the file
 
 
 def run(ctx: Ctx) -> None:
-    import harness.common as common
-
-    orig_driver = common.DRIVER
-    snap = _snapshot_driver()
-    try:
-        _run(ctx)
-    finally:
-        common.DRIVER = orig_driver
-        if snap:
-            try:
-                os.remove(snap)
-            except OSError:
-                pass
-
-
-def _run(ctx: Ctx) -> None:
     ctx.rule = ("one case = (cwd, base spelling, location string, entry point, offset, length) read on the real tree; distinct by "
                 "that tuple with the temp root abstracted; all are non-trivial (a real ExternalTensor read is attempted); "
                 "string-function / realpath cases are distinct by (function, argument)")
@@ -867,11 +939,13 @@ def _run(ctx: Ctx) -> None:
         ctx.proof.setdefault("extra_trusted", []).append(
             "model of the kernel's path resolution and of CPython posixpath (join/normpath/abspath/dirname/realpath): "
             "validated differentially on every run, not verified against the kernel or CPython sources")
+    _remove_stale_trees()
     string_functions(ctx)
     tree = build_tree()
     old = os.getcwd()
     try:
         desc = describe_tree(tree["R"])
+        check_links(ctx, desc, "fixed tree")
         R = tree["R"]
         sps = base_spellings(R)
         maxlen = ctx.pick(3, 4)
@@ -919,6 +993,7 @@ def _run(ctx: Ctx) -> None:
         load_cases(ctx, tree, desc)
         nested_load_cases(ctx, tree, desc)
         odd_cases(ctx, tree, desc)
+        size_zero_cases(ctx, tree, desc)
         stateful_sequences(ctx)
         random_trees(ctx)
     finally:
@@ -980,7 +1055,7 @@ def odd_cases(ctx: Ctx, tree: dict, desc: dict) -> None:
             ctx.disagree("model error", {"odd": True}, mo, None)
         else:
             for (case, obs), o in zip(obs_l, mo["r"]):
-                compare(ctx, case, obs, o, {}, R)
+                compare(ctx, case, obs, o, desc["inodes"], R)
     finally:
         os.chdir(old)
 
@@ -1003,6 +1078,7 @@ def build_state_tree() -> dict:
     for rel, c in files.items():
         _w(os.path.join(R, rel), c)
     os.symlink("../outside/canary", os.path.join(R, "other/w"))
+    os.symlink("../outside/canary", os.path.join(R, "base/wlink"))
     scratch = os.path.join(top, "scratch")
     os.mkdir(scratch)
     return {"top": top, "R": R, "scratch": scratch, "canaries": sorted(v.decode() for v in files.values() if v.startswith(b"CANARY"))}
@@ -1074,6 +1150,16 @@ def _mut_base_outside(R, t, loc):
     return (R + "/outside", R + "/outside")
 
 
+def _mut_base_empty(R, t, loc):
+    t.base_dir = ""
+    return ("", None)
+
+
+def _mut_base_main(R, t, loc):
+    t.base_dir = R + "/base"
+    return (R + "/base", R + "/base")
+
+
 def _mut_release(R, t, loc):
     t.release()
     return "release"
@@ -1083,15 +1169,18 @@ MUTATIONS = {
     "none": _mut_none, "symlink_out": _mut_symlink_out, "hardlink_out": _mut_hardlink_out, "symlink_in": _mut_symlink_in,
     "replace_in": _mut_replace_in, "rewrite_in_place": _mut_rewrite_in_place, "add_hardlink": _mut_add_hardlink,
     "delete": _mut_delete, "dir_swap": _mut_dir_swap, "base_other": _mut_base_other, "base_sub": _mut_base_sub,
-    "base_rel": _mut_base_rel, "base_outside": _mut_base_outside, "release": _mut_release,
+    "base_rel": _mut_base_rel, "base_outside": _mut_base_outside, "base_empty": _mut_base_empty, "base_main": _mut_base_main,
+    "release": _mut_release,
 }
 
 
 def run_scenario(part, loc: str, steps: list, label: str) -> None:
     """steps: list of ("call", ep) | ("mut", name).  One tensor, one fresh tree; oracle after every
-    call; the whole sequence is then given to the model (path.session) and compared call by call."""
+    call; the whole sequence is then given to the model (path.session) and compared call by call.
+    A label starting with "empty-start" constructs the tensor with base_dir "" (checks skipped by design)."""
     tree = build_state_tree()
     R = tree["R"]
+    loc = loc.replace("$R", R)
     old = os.getcwd()
     try:
         os.chdir(R)
@@ -1106,6 +1195,8 @@ def run_scenario(part, loc: str, steps: list, label: str) -> None:
             return d, {"entries": d["entries"], "inodes": [[x["id"], x["nlink"], x["data"]] for x in d["inodes"].values()] + ghosts}
 
         base, true_base = R + "/base", R + "/base"
+        if label.startswith("empty-start"):
+            base, true_base = "", None
         t = make_tensor(base, loc)
         desc, fsj = snapshot()
         msteps = [{"op": "fs", "fs": fsj}, {"op": "base", "base": base}]
@@ -1118,6 +1209,8 @@ def run_scenario(part, loc: str, steps: list, label: str) -> None:
                     msteps.append({"op": "release"})
                     mapped_id = None
                 elif isinstance(r, tuple):
+                    if r[0] != base:
+                        mapped_id = None  # a mapping made under another base directory does not count for this one
                     base, true_base = r
                     msteps.append({"op": "base", "base": base})
                 else:
@@ -1127,13 +1220,13 @@ def run_scenario(part, loc: str, steps: list, label: str) -> None:
             ep = arg
             case = {"cwd": R, "base": base, "loc": loc, "ep": ep, "offset": 0, "length": NBYTES, "via": "stateful", "sequence": label, "steps": steps}
             obs = real_read(t, ep, tree["scratch"], R, release=False)
-            # ---- oracle (independent of the model)
+            # ---- oracle (independent of the model); an empty base directory disables the checks by design
             inos = desc["inodes"]
-            tb = true_base.rstrip("/") + "/"
+            tb = (true_base.rstrip("/") + "/") if true_base is not None else None
 
             def inside(key):
                 info = inos.get(key)
-                return info is not None and info["nlink"] == 1 and all((l + "/").startswith(tb) for l in info["locs"])
+                return tb is None or (info is not None and info.get("kind") != "o" and info["nlink"] == 1 and all((l + "/").startswith(tb) for l in info["locs"]))
 
             opened_keys = []
             for p in obs["opened"]:
@@ -1148,11 +1241,13 @@ def run_scenario(part, loc: str, steps: list, label: str) -> None:
                     good = any(inside(k) and inos[k]["data"][:NBYTES] == obs["bytes"] for k in opened_keys)
                 else:
                     good = mapped_id is not None and known.get(mapped_id, "")[:NBYTES] == obs["bytes"]
+                if tb is None:
+                    good = True
                 if not good:
                     kind_ = "canary-read" if obs["bytes"] in tree["canaries"] else "not-inside-file"
                     part.fail(f"stateful-{kind_}:{ep}", "a call returned bytes that are not those of a singly-linked regular file inside "
                               "the base directory (opened by this call, or mapped by an earlier checked call)", {**case, "obs": obs})
-            if ep in MAPPING_EPS and opened_keys and obs["r"] == "ok":
+            if ep in MAPPING_EPS and opened_keys and obs["r"] == "ok" and tb is not None:
                 mapped_id = inos[opened_keys[-1]]["id"]
             if ep == "serialize_raw" and obs["r"] == "ok":
                 mapped_id = None
@@ -1166,8 +1261,6 @@ def run_scenario(part, loc: str, steps: list, label: str) -> None:
         else:
             for (case, obs), o in zip(observed, out["r"]):
                 compare(part, case, obs, o, {}, R)
-                if (o.get("opened") is None) != (not [p for p in obs["opened"] if true_location(p, R) in desc["inodes"] or (posixpath.normpath(p) + "/").startswith(tree["top"] + "/")]):
-                    part.disagree("open / no-open differs (session)", case, o, obs)
         try:
             t.release()
         except Exception:
@@ -1194,11 +1287,17 @@ def stateful_sequences(ctx: Ctx) -> None:
             for ep2 in ENTRY_POINTS:
                 steps = [("call", ep1), ("mut", mut), ("call", ep2), ("call", "tofile_bytesio"), ("mut", "release"), ("call", ep2)]
                 scen.append((loc, steps, f"{ep1}>{mut}>{ep2}"))
+    for ep1 in ENTRY_POINTS:
+        for ep2 in ENTRY_POINTS:
+            for loc0 in ("$R/base/wlink", "$R/base/w", "$R/outside/canary"):
+                steps = [("call", ep1), ("mut", "base_main"), ("call", ep2), ("call", "tofile_file"), ("mut", "base_empty"), ("call", ep2),
+                         ("mut", "base_main"), ("call", ep2)]
+                scen.append((loc0, steps, f"empty-start:{ep1}>rebase>{ep2}:{loc0.split('/')[-1]}"))
     ctx.exhaustive_scopes.append(f"stateful: call ep1, mutation, call ep2, tofile, release, call ep2 for all {len(ENTRY_POINTS)}x{len(MUTATIONS)}x{len(ENTRY_POINTS)} (ep1, mutation, ep2)")
     path_muts = {"file": ["symlink_out", "hardlink_out", "symlink_in", "replace_in", "delete", "rewrite_in_place", "add_hardlink"],
                  "link": ["symlink_out", "hardlink_out", "symlink_in", "replace_in", "delete"],
                  "gone": []}
-    other_muts = ["none", "base_other", "base_sub", "base_rel", "base_outside", "release"]
+    other_muts = ["none", "base_other", "base_sub", "base_rel", "base_outside", "base_empty", "base_main", "release"]
     for _ in range(ctx.pick(150, 2000)):
         steps = [("call", ctx.rng.choice(ENTRY_POINTS))]
         kind, extra = "file", False
@@ -1224,6 +1323,36 @@ def stateful_sequences(ctx: Ctx) -> None:
         ctx.merge(p)
 
 
+def size_zero_cases(ctx: Ctx, tree: dict, desc: dict) -> None:
+    """Zero-size tensors (nothing is mapped or copied) and tensors without offset/length: oracle only.  A zero-size
+    read must not open any file outside the base directory and returns no byte."""
+    import onnx_ir as ir
+
+    R = tree["R"]
+    b = R + "/base"
+    old = os.getcwd()
+    try:
+        os.chdir(R)
+        k = 0
+        for loc in ["f", "link_out", "../outside/canary", R + "/outside/canary", "hard", "dlink_out/f", "fifo", "nothing", "d"]:
+            for ep in ENTRY_POINTS:
+                for off, ln in ((0, 0), (None, None), (None, 0)):
+                    k += 1
+                    t = ir.ExternalTensor(loc, off, ln, ir.DataType.UINT8, shape=ir.Shape([0]), name="z", base_dir=b)
+                    case = {"cwd": R, "base": b, "loc": loc, "ep": ep, "offset": off, "length": ln, "via": "size-zero"}
+                    obs = real_read(t, ep, tree["scratch"], R)
+                    ctx.case(["size-zero", loc.replace(R, "$R"), ep, off, ln], size_zero=(obs["r"] if obs["r"] == "ok" else "raised-" + obs.get("layer", "?")))
+                    if obs["r"] == "ok" and obs["bytes"] != "":
+                        ctx.fail(f"size-zero-bytes:{ep}", "a zero-size tensor returned bytes", {**case, "obs": obs})
+                    for p_ in obs["opened"]:
+                        key = true_location(p_, R)
+                        info = desc["inodes"].get(key)
+                        if info is not None and not (info.get("kind") != "o" and info["nlink"] == 1 and all((l + "/").startswith(b + "/") for l in info["locs"])):
+                            ctx.fail(f"size-zero-outside-open:{ep}", "a zero-size read opened a file outside the base directory", {**case, "obs": obs})
+    finally:
+        os.chdir(old)
+
+
 def random_trees(ctx: Ctx) -> None:
     """Random small trees: reads with a random real directory as base, and realpath/lstat/stat."""
     trees = []
@@ -1233,6 +1362,7 @@ def random_trees(ctx: Ctx) -> None:
             tr = build_random_tree(ctx.rng)
             trees.append(tr)
             desc = describe_tree(tr["R"])
+            check_links(ctx, desc, "random tree")
             R = tr["R"]
             for _ in range(2):
                 bdir = ctx.rng.choice(tr["dirs"])
